@@ -371,8 +371,13 @@ STR_BODIES = ["", "a", "A", "ab", "aB", "b%", "a_", "%", "_", "'", "''", "\"", "
               "x' AND '1'='1", "%a%", "NULL", "0", "1", "?", "%s", "a b", "\\", "a\\%"]
 
 
+# values that spell an operator / keyword of the filter mini-language or of SQL: still data
+KEYWORD_VALUES = ["IS NULL", "is null", "IS NOT NULL", "is not null", "Is Null", "NULL", "null", "IN", "NOT IN", "LIKE", "=", "!=",
+                  "?", "%s", "", "None", "DEFAULT", "1=1", "tb.s", "s"]
+
+
 def st_str():
-    return st.sampled_from(STR_BODIES).map(lambda b: b + MARK) | st.sampled_from(STR_BODIES).map(lambda b: MARK + b) \
+    return st.sampled_from(KEYWORD_VALUES) | st.sampled_from(STR_BODIES).map(lambda b: b + MARK) | st.sampled_from(STR_BODIES).map(lambda b: MARK + b) \
         | st.text("abAB%_' ", max_size=4).map(lambda b: b + MARK)
 
 
@@ -435,18 +440,43 @@ def st_cond(draw, depth=0):
 
 
 @st.composite
-def st_case(draw):
+def st_case(draw, max_conds=4, with_kwargs=True):
     nrows = draw(st.integers(0, 12))
     spool = draw(st.lists(st_str(), min_size=1, max_size=4))
     rows = []
     for i in range(nrows):
         rows.append([i * 2 + draw(st.integers(0, 1)) - 3,
                      draw(st.none() | st.integers(-3, 6) | st_int()),
-                     draw(st.none() | st.sampled_from(spool) | st_str()),
-                     draw(st.none() | st.sampled_from(spool) | st_str())])
-    conds = draw(st.lists(st_cond(), max_size=4))
+                     draw(st.none() | st.sampled_from(spool) | st.sampled_from(spool) | st_str()),
+                     draw(st.none() | st.sampled_from(spool) | st.sampled_from(spool) | st_str())])
+    conds = draw(st.lists(st_cond(), min_size=min(1, max_conds), max_size=max_conds) if max_conds < 4 else
+                 st.lists(st_cond(), max_size=max_conds))
+
+    def relate(c):
+        # LIKE patterns / compared strings derived from values that are in the table: '_' wildcards, other letter case,
+        # '%' prefixes / suffixes - so that the pattern semantics decides which rows are selected
+        if c[0] == "or":
+            for sub in c[1]:
+                relate(sub)
+        elif c[0] == "c" and isinstance(c[3], str) and draw(st.booleans()):
+            v = draw(st.sampled_from(spool))
+            how = draw(st.sampled_from(["same", "swapcase", "underscore", "prefix%", "%suffix", "upper"]))
+            if how == "swapcase":
+                v = v.swapcase()
+            elif how == "upper":
+                v = v.upper()
+            elif how == "underscore" and v:
+                i = draw(st.integers(0, len(v) - 1))
+                v = v[:i] + "_" + v[i + 1:]
+            elif how == "prefix%" and v:
+                v = v[:draw(st.integers(0, len(v) - 1))] + "%"
+            elif how == "%suffix" and v:
+                v = "%" + v[draw(st.integers(0, len(v) - 1)):]
+            c[3] = v
+    for c in conds:
+        relate(c)
     kwargs = {}
-    for k in draw(st.lists(st.sampled_from(["n", "s", "t", "id"]), max_size=2, unique=True)):
+    for k in draw(st.lists(st.sampled_from(["n", "s", "t", "id"]), max_size=2 if with_kwargs else 0, unique=True)):
         kwargs[k] = draw(st.one_of(st_colval(k), st.lists(st_colval(k), max_size=3).map(lambda x: ["list", x])))
     return {"rows": rows, "conds": conds, "kwargs": kwargs,
             "order": draw(st.sampled_from([None, "asc", "desc"])), "order_in_ctor": draw(st.booleans()),
@@ -457,7 +487,9 @@ def st_case(draw):
 
 def parts(tier):
     k = 1 if tier == "quick" else 40
-    return [Part("queries", evaluate, strategy=st_case, examples=8000 * k)]
+    return [Part("queries", evaluate, strategy=st_case, examples=8000 * k),
+            Part("single_condition", evaluate, strategy=lambda: st_case(max_conds=1, with_kwargs=False), examples=6000 * k,
+                 note="one condition (or one OR-group) per query, so that its own semantics decides the selected rows")]
 
 
 TECHNIQUE = "differential property-based testing (Hypothesis): generated condition trees and tables run through SqlMethod on sqlite3 and through an independent three-valued-logic evaluator; a recording cursor checks placeholder/parameter binding"
